@@ -32,6 +32,16 @@ FLOAT = np.dtype('float64')
 DATE = np.dtype('datetime64[ns]')
 
 
+class DoubleUnsupported(AttributeError):
+    """the code under test used a pandas/numpy facility this double does not model: the obligation cannot be
+    decided with the double (inconclusive) - it is NOT evidence of a violation"""
+
+
+class _Unsupported(type):
+    def __getattr__(cls, name):
+        raise DoubleUnsupported('the pandas/numpy double has no %s.%s' % (cls.__name__, name))
+
+
 def isnull_scalar(v):
     return v is None
 
@@ -206,6 +216,11 @@ class SymSeries:
     def tolist(self):
         return list(self.vals)
 
+    def __getattr__(self, name):
+        if name.startswith('__'):
+            raise AttributeError(name)
+        raise DoubleUnsupported('the pandas double has no Series.%s' % name)
+
     def items(self):
         return list(enumerate(self.vals))
 
@@ -284,6 +299,11 @@ class SymFrame:
     def isnull(self):
         return SymFrame({c: self.cols[c].isnull() for c in self.order}, self.index)
 
+    def __getattr__(self, name):
+        if name.startswith('__') or name == 'rows':
+            raise AttributeError(name)
+        raise DoubleUnsupported('the pandas double has no DataFrame.%s' % name)
+
     def duplicated(self, colname, keep=False):
         vals = self.cols[colname].vals
         out = []
@@ -318,7 +338,7 @@ class _CoreNS:
 
 def make_fakes(real_pd, real_np):
     """namespace objects to patch over `pd` and `np` inside a tdda module"""
-    class FakePD:
+    class FakePD(metaclass=_Unsupported):
         Timestamp = real_pd.Timestamp
         NaT = None
         core = _CoreNS
@@ -347,7 +367,7 @@ def make_fakes(real_pd, real_np):
         def to_datetime(v):
             return v
 
-    class FakeNP:
+    class FakeNP(metaclass=_Unsupported):
         nan = None
         dtype = real_np.dtype
         datetime64 = real_np.datetime64
